@@ -387,6 +387,11 @@ func suiteGenerate(env *Env, res *Result, focus string) {
 			res.addFailure(Failure{Kind: "C19", Shape: "generate_" + cl, Input: input, Detail: clip(g.first.Stderr, 400)})
 			continue
 		}
+		if len(g.repeats) > 0 && (g.repeats[0].Exit != g.first.Exit || g.repeats[0].Stdout != g.first.Stdout) && g.repeats[1].Exit == g.first.Exit && g.repeats[1].Stdout == g.first.Stdout {
+			// the same bytes through the other input path (stdin / file argument) give another result,
+			// while a fresh run through the same path agrees: not nondeterminism but the path (C18)
+			res.addFailure(Failure{Kind: "C18", Shape: "c18_stdin_differs_from_file", Input: input, Detail: fmt.Sprintf("via_stdin=%v: %d %q, other path: %d %q", g.viaStdin, g.first.Exit, clip(g.first.Stdout, 200), g.repeats[0].Exit, clip(g.repeats[0].Stdout, 200))})
+		}
 		for _, rep := range g.repeats {
 			if rep.Exit != g.first.Exit || rep.Stdout != g.first.Stdout {
 				res.addFailure(Failure{Kind: "C03", Shape: "generate_runs_differ", Input: input, Detail: fmt.Sprintf("first %d %q, other %d %q", g.first.Exit, clip(g.first.Stdout, 200), rep.Exit, clip(rep.Stdout, 200))})
